@@ -109,7 +109,7 @@ def parse(output: str) -> dict:
     return res
 
 
-def cargo_kani(crate: str, harnesses: list[str], target: str, extra: list[str] = (), timeout=1800, jobs: int = 8, contracts: bool = False):
+def cargo_kani(crate: str, harnesses: list[str], target: str, extra: list[str] = (), timeout=1200, jobs: int = 8, contracts: bool = False):
     env = dict(os.environ, CARGO_NET_OFFLINE="true", CARGO_TARGET_DIR=target)
     cmd = ["cargo", "kani", "-Z", "stubbing"] + (["-Z", "function-contracts"] if contracts else []) + [x for h in harnesses for x in ("--harness", h)] + \
           (["-j", str(jobs)] if jobs > 1 else []) + ["--output-format", "terse"] + list(extra)
